@@ -71,6 +71,19 @@ def case_worker(case):
         src, entries = gen_input(rng, opts["typing"])
         inp = os.path.join(tree, "input_mod.py")
         open(inp, "w").write(src)
+        if opts.get("sql_input"):
+            # declarative SQLAlchemy models (Base imported, not assigned) in both base orders, read with --parse infer
+            cols = [("ident", "Integer", "primary key", "primary_key=True"), ("score", "Float", "the score", "nullable=False"),
+                    ("active", "Boolean", "is active", "default=True")]
+            mods = [("Plain", "Base"), ("User", opts["sql_input"])]
+            src = "from sqlalchemy import Boolean, Column, Float, Integer\n\nfrom myapp.db import Base\n\n\nclass TimestampMixin(object):\n" \
+                  "    \"\"\"\n    Shared bookkeeping\n\n    :cvar revision: revision counter\n    \"\"\"\n\n    revision: int = 0\n\n\n"
+            for nm, bases in mods:
+                src += "class %s(%s):\n    \"\"\"\n    A %s\n\n%s    \"\"\"\n\n    __tablename__ = \"%s\"\n\n%s\n\n" % (
+                    nm, bases, nm, "".join("    :cvar %s: %s\n" % (c[0], c[2]) for c in cols), nm.lower(),
+                    "".join("    %s = Column(%s, doc=\"%s\", %s)\n" % c for c in cols))
+            open(inp, "w").write(src)
+            entries = [("TimestampMixin", ["revision"])] + [(nm, [c[0] for c in cols]) for nm, _b in mods]
         if opts.get("json_input"):
             # the input mapping is one JSON-schema document (explicit --parse json_schema), under a .json or another extension
             import json as _json
@@ -182,6 +195,18 @@ def case_worker(case):
         syms = top_level_symbols(mod)
         res["all"] = allv
         res["symbols"] = syms
+        if opts.get("sql_input") and opts["emit"] == "class":
+            # each generated class carries the columns of its source model (and nothing else)
+            pre, suf = opts["tpl"]
+            for nm, want in entries:
+                node = next((n for n in mod.body if isinstance(n, ast.ClassDef) and n.name == pre + nm + suf), None)
+                got = [] if node is None else [t.id for b in node.body if isinstance(b, (ast.AnnAssign, ast.Assign))
+                                               for t in ([b.target] if isinstance(b, ast.AnnAssign) else b.targets) if isinstance(t, ast.Name)]
+                if got != want:
+                    res["problems"].append({"clause": "a generated symbol does not have the interface of its source entry", "entry": nm,
+                                            "attributes": got, "expected": want,
+                                            "cls": "C19/infer/model-attributes/%s" % ("base-first" if nm == "Plain" or opts["sql_input"].startswith("Base") else
+                                                                                  "mixin-first" if nm == "User" else "plain-class")})
         res["text_head"] = text[:200]
         # imports first (docstring may precede)
         seen_other = False
@@ -232,6 +257,9 @@ def gen_cases(ctx):
         for prepend in (2, 3):
             cases.append((rng.randrange(1 << 30), {"emit": emit, "parse": "class", "tpl": ["", "Cfg"], "infer_imports": True, "prepend": prepend,
                                                    "no_word_wrap": False, "out_exists": False, "tilde": False, "typing": "uniform"}))
+    for bases in ("Base", "TimestampMixin, Base", "Base, TimestampMixin"):
+        cases.append((rng.randrange(1 << 30), {"emit": "class", "parse": "infer", "tpl": ["", "Cfg"], "infer_imports": False, "prepend": 0,
+                                               "no_word_wrap": False, "out_exists": False, "tilde": False, "typing": False, "sql_input": bases}))
     for fname in ("person.json", "person.schema", "order.jsonschema"):
         for emit in ("class", "argparse", "json_schema"):
             cases.append((rng.randrange(1 << 30), {"emit": emit, "parse": "json_schema", "tpl": ["", "Cfg"], "infer_imports": False, "prepend": 0,
